@@ -5,11 +5,17 @@ and the stored view of the entity (`keys=… log=… snap=…`).  The driver
 * runs the generic store model instantiated with the test aggregate / test WAL type in
   lock-step and compares result and view (`FAIL model …`),
 * evaluates the executable property predicates of `ES/Obs.lean` on the *implementation's own*
-  observations (`FAIL oracle <predicate names>`). -/
+  observations (`FAIL oracle <predicate names>`),
+* compares the critical sections every store call ran (`sec=…`, from the event log of
+  `krill::verif::lockpoint`) with the generated table of the stores' methods
+  (`Generated/StoreSections.lean` through `ES/Sections.lean`: `FAIL model sections`) and requires
+  one section per call (`single_section`) and one acknowledged init command per handle whose
+  `command-0` is the acknowledged caller's (`exactly_one_init`). -/
 import KrillModel.ES.Reg
 import KrillModel.ES.Bag
 import KrillModel.ES.Obs
 import KrillModel.Sys.Interleave
+import KrillModel.ES.Sections
 import KrillModel.Drivers.Util
 namespace KM.Drv.AggStore
 open KM.ES KM.ES.Obs KM.Drv
@@ -176,6 +182,8 @@ structure DSt (iv : Nat) where
   acked : List (String × String × ORet) := []
   /-- a lock log was seen: this case is a concurrent run (actors are unique per command) -/
   conc : Bool := false
+  /-- per handle the actor of the acknowledged init command (since the last `drop`) -/
+  inits : List (String × String) := []
   /-- `real` lines (a real krill aggregate, no model): last observed version -/
   realV : Nat := 0
   synced : Bool := true
@@ -361,6 +369,19 @@ def modelStep {iv : Nat} (d : DSt iv) (op : List String) : Option (MOut iv) :=
            branch := if e.kv.exists then (if e.kv.wals.isEmpty then "snapshot-only" else "with-wal") else "absent" }
   -- concurrent mode: the per-entity lock log is judged by the oracle only
   | "conclog" :: _ => some { d := d, ret := "ok", view := none, branch := "log" }
+  -- `threads` init commands for one new handle, `rounds` times: whatever the order, the model
+  -- acknowledges the first and refuses the others (callers alternate between two store objects)
+  | ["raceadd", threads, rounds, _] => do
+    let n ← threads.toNat?
+    let rounds ← rounds.toNat?
+    let (_, outs) := (List.range n).foldl
+      (fun (acc : Ent (Reg.regAgg iv) × List (Out (Reg.regAgg iv))) k =>
+        let r := add acc.1 (k % 2) s!"t{k}" s!"n{k}" d.fault
+        (r.1, acc.2 ++ [r.2])) (({} : Ent (Reg.regAgg iv)), [])
+    let oks := (outs.filter fun o => match o with | .ok _ => true | _ => false).length
+    let dups := (outs.filter fun o => match o with | .duplicate => true | _ => false).length
+    pure { d := d, view := none, branch := if oks == 1 then s!"one-of-{n}" else s!"{oks}-of-{n}",
+           ret := s!"ok acks={rounds * oks} dups={rounds * dups} other={rounds * (n - oks - dups)} reload={if oks == 1 then rounds else 0} multi=0" }
   -- a real krill aggregate (RepositoryAccess): no model, judged by the oracle only
   | "real" :: kind :: _ => some { d := d, ret := "", view := none, branch := kind }
   | _ => none
@@ -387,7 +408,8 @@ def parseLockLog (s : String) : Option (List (Nat × Sys.LockEv)) :=
 def oracle {iv} (d : DSt iv) (op ows : List String) : List String :=
   let ret := parseRet (obsRet ows)
   let isCall := match op.head? with
-    | some k => k == "cmd" || k == "get" || k == "snap" || k == "wcmd" || k == "wget" || k == "wsnap"
+    | some k => k == "cmd" || k == "get" || k == "snap" || k == "wcmd" || k == "wget" || k == "wsnap" ||
+        k == "add" || k == "drop"
     | none => false
   -- concurrent runs print the calls without the stored view; they are judged by `conclog`
   -- (well-bracketed) and by the final `check` (`audit_exact`)
@@ -485,6 +507,82 @@ def oracle {iv} (d : DSt iv) (op ows : List String) : List String :=
     | none => ["unparsable-observation"]
   | _ => []
 
+/-! ### critical sections and init commands -/
+
+open KM.Generated.StoreSections in
+/-- The store method an op of the stream calls. -/
+def methodOfOp : String → Option StoreMethod
+  | "add" => some .agg_add
+  | "cmd" => some .agg_command
+  | "get" => some .agg_get_latest
+  | "snap" => some .agg_save_snapshot
+  | "has" => some .agg_has
+  | "drop" => some .agg_drop_aggregate
+  | "hist" => some .agg_command_history
+  | "wadd" => some .wal_add
+  | "wcmd" => some .wal_send_command
+  | "wget" => some .wal_get_latest
+  | "wsnap" => some .wal_update_snapshot
+  | "wremove" => some .wal_remove
+  | _ => none
+
+/-- `s:has.store|g:` -/
+def parseSec (s : String) : Option (List Sections.ObsSec) :=
+  if s == "-" then some [] else
+  (s.splitOn "|").mapM fun w =>
+    match w.splitOn ":" with
+    | [k, ops] => some ⟨k, if ops == "" then [] else ops.splitOn "."⟩
+    | _ => none
+
+/-- The observed sections of the call, if the line carries them. -/
+def obsSections (op ows : List String) : Option (KM.Generated.StoreSections.StoreMethod × List Sections.ObsSec) := do
+  let m ← op.head?.bind methodOfOp
+  let secs ← (kv? ows "sec").bind parseSec
+  pure (m, secs)
+
+/-- `FAIL model sections`: the call ran its storage operations in other critical sections than
+the table generated from the source says. -/
+def sectionsMismatch (op ows : List String) : Option String :=
+  match obsSections op ows with
+  | some (m, secs) =>
+    if Sections.sectionsFit m secs then none
+    else some s!"sections {m.text} observed [{(kv? ows "sec").getD ""}] do not fit the generated table"
+  | none => if (kv? ows "sec").isSome && (op.head?.bind methodOfOp).isSome then some "sections unparsable" else none
+
+/-- Ops that are ONE call on one entity: one section, always entered. -/
+def entityOp (k : String) : Bool :=
+  ["add", "cmd", "get", "snap", "has", "drop", "wadd", "wcmd", "wget", "wsnap"].contains k
+
+/-- `single_section` and `exactly_one_init`, on the implementation's own observations. -/
+def sectionOracle {iv} (d : DSt iv) (op ows : List String) : List String :=
+  let ret := parseRet (obsRet ows)
+  (match obsSections op ows, op.head? with
+   | some (_, secs), some k =>
+     if k == "hist" then []
+     else named "single_section" (Sections.singleSection secs && (!entityOp k || secs.length == 1))
+   | _, _ => []) ++
+  (match op with
+   | ["add", _, h, _, _] =>
+     (match ret with
+      | some (.ok _ _) => named "exactly_one_init" (!(d.inits.any (·.1 == h)))
+      | _ => [])
+   | ["check", h] =>
+     (match sget d.inits h, parseView ows false with
+      | some actor, some post =>
+        named "exactly_one_init" (match post.cmds.head? with
+          | some c => c.actor == actor && c.effect.isInit
+          | none => false)
+      | _, _ => [])
+   | ["raceadd", _, _, _] =>
+     let n := fun k => ((kv? ows k).getD "").toNat?
+     (match n "acks", n "reload", n "multi" with
+      | some acks, some reload, some multi =>
+        -- a round with two acknowledged callers, or whose stored / reloaded init command is not the
+        -- acknowledged caller's, does not count for `reload`
+        named "exactly_one_init" (reload == acks) ++ named "single_section" (multi == 0)
+      | _, _, _ => ["unparsable-observation"])
+   | _ => [])
+
 /-- Remember what the implementation showed (for the next oracle evaluation). -/
 def learn {iv} (d : DSt iv) (op ows : List String) : DSt iv :=
   let h? : Option (String × Bool) := match op with
@@ -511,6 +609,12 @@ def learn {iv} (d : DSt iv) (op ows : List String) : DSt iv :=
       | none => d
     let d := if op.head? == some "drop" then
         { d with dropped := h :: d.dropped, istate := d.istate.filter (·.1 != h) } else d
+    -- a deleted entity's acknowledged commands and init command are gone with it
+    let d := if op.head? == some "drop" && obsRet ows == "ok" then
+        { d with acked := d.acked.filter (·.1 != h), inits := d.inits.filter (·.1 != h) } else d
+    let d := match op, parseRet (obsRet ows) with
+      | ["add", _, _, actor, _], some (.ok _ _) => { d with inits := sset d.inits h actor }
+      | _, _ => d
     let r := if op.head? == some "check" then (kv? ows "fresh").bind parseRet else parseRet (obsRet ows)
     match op.head?, r with
     | some "cmd", some (.ok _ st) | some "add", some (.ok _ st) | some "get", some (.ok _ st)
@@ -548,7 +652,7 @@ def stepD {iv} (prop : String) (d : DSt iv) (line : String) : DSt iv × String :
       named "krill_usage" (Wal.absentB (d.went h) || (d.went h).kv.emptyDir && (d.went h).cache.isEmpty
         && (d.went h).kv.snapshot.isNone && (d.went h).kv.wals.isEmpty)
     | _ => []
-  let orc := (oracle d op ows ++ usage).filter (ownedBy prop)
+  let orc := (oracle d op ows ++ usage ++ sectionOracle d op ows).filter (ownedBy prop)
   let dO := learn d op ows
   -- an extra tag so that the finding signature can tell a history query after a drop
   let orcTxt := " ".intercalate orc ++
@@ -563,7 +667,7 @@ def stepD {iv} (prop : String) (d : DSt iv) (line : String) : DSt iv × String :
   | some m =>
     -- carry the oracle bookkeeping over to the model's new state
     let dM := { m.d with iviews := dO.iviews, istate := dO.istate, dropped := dO.dropped,
-                          acked := dO.acked, conc := dO.conc, realV := dO.realV }
+                          acked := dO.acked, conc := dO.conc, realV := dO.realV, inits := dO.inits }
     if !d.synced then
       if orc.isEmpty then ({ dM with synced := false }, "skip unsynced")
       else ({ dM with synced := false }, fmtFail "oracle" orcTxt)
@@ -575,12 +679,16 @@ def stepD {iv} (prop : String) (d : DSt iv) (line : String) : DSt iv × String :
         else if op.head? == some "hist" then
           " ".intercalate (ows.filter fun w => w.startsWith "ret=" || w.startsWith "total=" || w.startsWith "offset=" || w.startsWith "recs=")
             |>.drop 4 |>.toString
+        else if op.head? == some "raceadd" then (" ".intercalate ows).drop 4 |>.toString
         else obsRet ows
       let viewOk := match m.view with
         | none => true
         | some v => (kv? ows "keys").isNone || parseView ows (op.head?.any (·.startsWith "w")) == some v
       let retOk := obsRetTxt == m.ret || op.head? == some "conclog" || op.head? == some "real"
       if retOk && viewOk then
+        match sectionsMismatch op ows with
+        | some msg => (dM, fmtFail "model" (msg ++ (if orc.isEmpty then "" else " ORACLE " ++ orcTxt)))
+        | none =>
         if orc.isEmpty then (dM, s!"ok {op.headD ""}:{m.branch}")
         else (dM, fmtFail "oracle" orcTxt)
       else
